@@ -80,3 +80,81 @@ def typeref_unit(kf):
 
 UNITS = {'c33_typeref': (['C33'], typeref_unit)}
 SEARCH = {'c33_typeref': ['c33_subtype']}
+
+
+# ----------------------------------------------------------------------------------------------------------------------
+# SchemaInner::check_unions: a schema builds only if every (registered) union member is an object type
+from vx.unit import LetChain, ClosureMatch  # noqa: E402
+
+CHECK_SHIMS = r'''
+// ---- trusted shims (R-ty): IndexMap<String, V> / IndexSet<String> as their insertion-ordered entry lists; lookup returns the
+// entry of that key (keys are distinct: the map's own invariant, stated as `requires` where a proof needs it)
+pub struct StrEntryMap<V> { pub entries: Vec<(String, V)> }
+pub open spec fn emap_index<V>(es: Seq<(String, V)>, k: Seq<char>) -> Option<int> {
+    if exists|i: int| 0 <= i < es.len() && es[i].0@ == k { Some(choose|i: int| 0 <= i < es.len() && es[i].0@ == k && forall|j: int| 0 <= j < i ==> es[j].0@ != k) } else { None }
+}
+impl<V> StrEntryMap<V> {
+    #[verifier::external_body]
+    pub fn get(&self, k: &str) -> (r: Option<&V>)
+        ensures match emap_index(self.entries@, k@) { Some(i) => r == Some(&self.entries@[i].1), None => r is None } { unimplemented!() }
+}
+pub struct StrList { pub items: Vec<String> }
+pub struct Scalar { pub name: String }
+pub struct Object { pub name: String }
+pub struct InputObject { pub name: String }
+pub struct Enum { pub name: String }
+pub struct Interface { pub name: String }
+pub struct Union { pub name: String, pub possible_types: StrList }
+pub struct Subscription { pub name: String }
+pub struct SchemaInner { pub types: StrEntryMap<Type> }
+pub struct SchemaError(pub String);
+#[verifier::external_body]
+pub fn schema_error() -> (r: SchemaError) { unimplemented!() }
+'''
+
+UNION_SPEC = r'''
+pub open spec fn type_of(es: Seq<(String, Type)>, name: Seq<char>) -> Option<Type> { match emap_index(es, name) { Some(i) => Some(es[i].1), None => None } }
+// GraphQL spec, Unions type validation: "The member types of a Union type must all be Object base types"
+pub open spec fn bad_member(es: Seq<(String, Type)>, u: Union, j: int) -> bool {
+    type_of(es, u.possible_types.items@[j]@) is Some && !(type_of(es, u.possible_types.items@[j]@)->Some_0 is Object)
+}
+pub open spec fn union_bad(es: Seq<(String, Type)>, i: int) -> bool {
+    es[i].1 is Union && exists|j: int| 0 <= j < es[i].1->Union_0.possible_types.items@.len() && bad_member(es, es[i].1->Union_0, j)
+}
+pub open spec fn unions_bad(es: Seq<(String, Type)>) -> bool { exists|i: int| 0 <= i < es.len() && union_bad(es, i) }
+'''
+
+
+def check_unions_unit(kf):
+    u = Unit('c33_check_unions', ['C33'], 'check_unions rejects exactly the schemas with a union member that is registered and not an object type')
+    u.kf = kf
+    u.prelude('string_eq')
+    u.extract_type('src/dynamic/type.rs', ['enum Type'])
+    u.trusted(CHECK_SHIMS, 'schema / map shims')
+    u.shim_conformance('src/dynamic/schema.rs', ['struct SchemaInner'], [('types', 'IndexMap<String, Type>')])
+    u.shim_conformance('src/dynamic/union.rs', ['struct Union'], [('name', 'String'), ('possible_types', 'IndexSet<String>')])
+    u.spec(UNION_SPEC, 'union member rule')
+    u.extract_fn('src/dynamic/type.rs', ['impl Type', 'fn as_object'], wrap_impl='Type', sig_rewrites=[ReSub(r'pub\(crate\) fn', 'fn')],
+                 ensures=['match *self { Type::Object(o) => r == Some(&o), _ => r is None }'])
+    es = 'self.types.entries@'
+    u.extract_fn(C, ['impl SchemaInner', 'fn check_unions'], wrap_impl='SchemaInner',
+                 rewrites=[MacroCall('format', 'schema_error()', count=1), Sub('schema_error() .into()', 'schema_error()', rule='R-msg'),
+                           LetChain(count=1),
+                           Sub('for ty in self.types.values() {', 'for e__ in it: &self.types.entries { let ty = &e__.1;', rule='R-iter'),
+                           Sub('for type_name in &union.possible_types {', 'for type_name in it2: &union.possible_types.items {', rule='R-iter')],
+                 ensures=[f'r is Err <==> unions_bad({es})'],
+                 loops={0: dict(prop=[f'forall|i: int| 0 <= i < it.index@ ==> !union_bad({es}, i)'], aux=[],
+                                head=f'proof {{ assert(*e__ == {es}[it.index@ as int]); }}'),
+                        1: dict(prop=[f'forall|j: int| 0 <= j < it2.index@ ==> !bad_member({es}, *union, j)'],
+                                aux=[f'forall|i: int| 0 <= i < it.index@ ==> !union_bad({es}, i)', f'*e__ == {es}[it.index@ as int]', f'ty == &e__.1', 'Type::Union(*union) == *ty'],
+                                head='proof { assert(*type_name == union.possible_types.items@[it2.index@ as int]); }')},
+                 inserts=[('before', 'return Err(schema_error());', f'proof {{ assert(bad_member({es}, *union, it2.index@ as int)); assert(union_bad({es}, it.index@ as int)); }}')],
+                 attrs=['#[verifier::loop_isolation(false)]'])
+    u.assume('IndexMap / IndexSet represented by their entry lists (R-ty); get() returns the entry of that key (assumed contract on indexmap)')
+    u.assume('members that are not registered at all are reported by another check (check_types_exists family, not under contract here)')
+    u.search_case('check.rs', 'c33_build')
+    return u
+
+
+UNITS['c33_check_unions'] = (['C33'], check_unions_unit)
+SEARCH['c33_check_unions'] = []
